@@ -33,6 +33,9 @@ did not succeed. START-SCOPE - the description-time methods of RunTask / RunTask
 no OSError and no exception guarded by a file-system probe (which / exists /
 access ...): a missing executable fails the task at run time, not the job
 description.
+CAP-DIRECT - every process-spawning call of run.py hands the capture files
+over as stdout= / stderr= (no PIPE, no check_output): the child writes the
+bytes itself.
 Not decided: the content of the captured files; commands killed by signals;
 the empty task name.
 '''
@@ -51,6 +54,7 @@ def check(ctx):
     ctx.run(extcmd.check_sanitizer_body)
     ctx.run(extcmd.check_start_scope)
     ctx.run(extcmd.check_call_loop)
+    ctx.run(extcmd.check_cap_direct)
     ctx.run(sched_worker.check_wrk1)
     ctx.run(patterns.check_patterns, ID)
 
@@ -61,6 +65,32 @@ def _variants(program):
     def add(name, kind, mod, editor, expect=None, quick=False, note=''):
         out.append(Variant(name, kind, edit_module(program, mod, editor),
                            expect, quick, note))
+
+    def output_through_a_pipe(tree):
+        fun = find_func(tree, 'run')
+        tree.body.insert(next(i for i, n in enumerate(tree.body)
+                              if isinstance(n, ast.ImportFrom)),
+                         parse_stmts('from subprocess import run as '
+                                     'sp_run, PIPE')[0])
+        for node in ast.walk(fun):
+            if isinstance(node, ast.Assign) and isinstance(
+                    node.value, ast.Call) and call_name(node.value) == \
+                    'call':
+                call = node.value
+                call.func = ast.Name(id='sp_run', ctx=ast.Load())
+                for kwd in call.keywords:
+                    if kwd.arg == 'stdout':
+                        kwd.value = ast.Name(id='PIPE', ctx=ast.Load())
+                tgt = ast.unparse(node.targets[0])
+                return insert_stmt(
+                    fun, lambda s: s is node, parse_stmts(
+                        f'stdout.write({tgt}.stdout)\n'
+                        f'{tgt} = {tgt}.returncode'))
+        return False
+    add('seed-command-output-read-through-a-pipe', 'mutant', RUNM,
+        output_through_a_pipe, {'CAP-DIRECT'},
+        note='seed C19-r4-1: text-mode decoding and newline translation in '
+             'the parent change what is captured')
 
     def no_break(tree):
         fun = find_func(tree, 'run')
